@@ -97,7 +97,7 @@ impl Property for C05 {
          oracle = reference evaluator of the statement over exact rationals; non-trivial = (>=1 active and >=1 removed constraint) or rejection case or state omitting an irrelevant variable; distinct = sha256(instance, state)"
     }
     fn required_labels(&self) -> Vec<String> {
-        ["flag-relaxed!=flag-all", "tolerance-inside", "tolerance-outside", "bound-reject", "bound-tolerated", "missing-used", "irrelevant-filled", "dependency", "fixed-variable", "removed-constraint", "feasible=true", "feasible=false"]
+        ["flag-relaxed!=flag-all", "tolerance-inside", "tolerance-outside", "bound-reject", "bound-tolerated", "missing-used", "irrelevant-filled", "dependency", "fixed-variable", "removed-constraint", "feasible=true", "feasible=false", "state-has-foreign-id", "state-repeats-fixed-variable", "dependency-on-fixed"]
             .iter()
             .map(|s| s.to_string())
             .collect()
@@ -129,6 +129,20 @@ impl Property for C05 {
         let mut gi = gen_instance(t, &cfg, ctx);
         let include_irrelevant = class != 1 && inc;
         let mut state = if include_irrelevant { gen_inst_state(t, &gi, regime, true) } else { gen_inst_state_partial(t, &gi, regime, imask) };
+        // a value for an id that is no variable of the problem at all, and a stale value for a fixed variable
+        if imask & 0x100 != 0 && class != 2 {
+            state.entries.insert(999_999_999, 1.25);
+            ctx.label("state-has-foreign-id");
+        }
+        if imask & 0x200 != 0 {
+            if let Some(fx) = gi.fixed.first() {
+                let v = gi.inst.decision_variables.iter().find(|v| v.id == *fx).unwrap();
+                // stale but in-bound: the value nearest to zero
+                let (lo, hi) = effective_bound(v).unwrap();
+                state.entries.insert(*fx, crate::model::nearest_to_zero(lo, hi));
+                ctx.label("state-repeats-fixed-variable");
+            }
+        }
         if gi.irrelevant.iter().any(|i| !state.entries.contains_key(i)) {
             ctx.label("irrelevant-filled");
             ctx.nontrivial();
